@@ -69,14 +69,14 @@ SHM_NOTE = ("Trusted: Coq kernel; the single-writer release/acquire machine of S
             "(ExtrOcamlBasic only). Crash = the writer stops between two of its accesses (process death modelled, not exercised with kill -9).")
 
 CLAIMED.update({
-    "C02": ("Coq: executable release/acquire machine; refutation theorems for the three unsafe configurations, rejection witness for the safe one, accept condition; "
-            "measured configuration must satisfy safe_cfg (generated Current_C02.v, re-proved every run); SC schedule correspondence of the real write()/snapshot() "
-            "incl. all small-scope placements; bounded search of the RA machine for an accepted mixture when the side condition fails",
-            "Machine-checked: C02_unfenced_refuted / C02_writerfence_only_refuted / C02_readerfence_only_refuted (the model admits an accepted mixture without both fences), "
-            "C02_fenced_rejects_torn_read, C02_accept_condition, C02_fixed_cfg_is_safe, and on every run safe_cfg(current_cfg) for the configuration measured from the code. "
-            "PARTIAL: the general theorem (every safe configuration, every log, every legal choice sequence: an accepted record is one completed publication) is stated in DESIGN.md "
-            "appendix A.2 and rehearsed there, but is not yet proved for the executable machine; until then the all-executions claim rests on the side condition + the witnesses + "
-            "the exhaustive small-scope and random schedule correspondence.",
+    "C02": ("Coq proof over the executable single-writer release/acquire machine: writer log invariant (inductive over every writer step, crash and restart), reader "
+            "iteration invariant (inductive over every reader step for every legal choice of the event a load returns, stable under log growth), acceptance argument, "
+            "lifted to whole-system runs by induction over the schedule; the configuration measured from the running code must satisfy the theorem's side condition "
+            "safe_cfg (generated Current_C02.v, re-proved and instantiated every run); SC schedule correspondence of the real write()/snapshot(); RA search for a failing history",
+            "Machine-checked: C02_RA (for every configuration with safe_cfg, every number of cells, every schedule of writer accesses, reader accesses with any release/acquire-legal "
+            "read choice, crashes at any access, restarts and new readers, with fewer than 32767 write() calls: every record a snapshot() returns is the initial zero record or cell "
+            "for cell the record of one completed write() call), C02_reachable_invariant, C02_accept_is_one_completed_write, the three refutations for unsafe configurations, "
+            "C02_fenced_rejects_torn_read, C02_aba_witness (why the side condition is there: known finding C02-aba, re-found on the real code every run).",
             SHM_NOTE, "DESIGN.md section 6, C02"),
     "C03": ("Coq: reader-step theorems (cache changes only on accept; accept condition) + computed examples (catch-up, wrap) + schedule correspondence of the real code with "
             "monotonicity/freshness oracles incl. jumps across the 16-bit wrap and readers that skip >= 16384 publications",
